@@ -381,6 +381,27 @@ def real_fs(ck, work, quick):
     if res != ["dir", "tmp2"] or sorted(os.listdir(dg)) != ["tmp1", "tmp1.bak", "tmp10", "tmp2", "tmp3", "tmp4"]:
         ck.violation(f"real file system with tmp1/ tmp3/ tmp4(file) tmp10/ tmp1.bak/: got {res}, expected tmp2; listing {sorted(os.listdir(dg))}",
                      {"case": "gaps2", "got": res})
+    # K names taken (tmp1..tmpK, files and directories alternating) for K around every power of two and ten: the run
+    # creates tmp(K+1) and touches nothing that was there (probe caps, give-up counters)
+    from boundaries import around
+    for K in ([9, 10, 99, 100, 101, 255, 256, 999, 1000, 1001, 1024] if quick else around(10001, lo=7)):
+        dk = os.path.join(work, f"taken{K}")
+        os.mkdir(dk)
+        for i in range(1, K + 1):
+            if i % 2 or i == K:
+                os.mkdir(os.path.join(dk, f"tmp{i}"))
+            else:
+                open(os.path.join(dk, f"tmp{i}"), "w").close()
+        with open(os.path.join(dk, f"tmp{K}", "1-interesting.txt"), "w") as f:
+            f.write("of an earlier run")
+        res = child([dk, "plain"], timeout=60)
+        ck.count("realfs")
+        ck.nontrivial(("realfs", "taken", K))
+        kept = open(os.path.join(dk, f"tmp{K}", "1-interesting.txt")).read() == "of an earlier run" and os.listdir(os.path.join(dk, f"tmp{K}")) == ["1-interesting.txt"]
+        if res != ["dir", f"tmp{K + 1}"] or not os.path.isdir(os.path.join(dk, f"tmp{K + 1}")) or not kept:
+            ck.violation(f"real file system with tmp1..tmp{K} all taken: got {res}, expected the new directory tmp{K + 1}; the old "
+                         f"tmp{K} untouched: {kept}", {"case": "taken", "K": K, "got": res})
+        shutil.rmtree(dk, ignore_errors=True)
     # a working directory that no longer exists: mkdir fails with ENOENT, must stop with that error
     d2 = os.path.join(work, "gone")
     os.mkdir(d2)
